@@ -224,6 +224,10 @@ def run_case(case) -> Dict[str, Any]:
             if case.get("init") == "all":
                 c.subscribe([P.ALL_MESSAGE_TYPES])
                 st = (set(), True)
+            if case.get("sent"):
+                c.send_signal(G0, dest_mod_id=7, dest_host_id=0, timeout=0.25)
+                c.send_message(CL.cd.MDF_MODULE_READY(), timeout=0.5)
+                c.send_signal(G0)
             ref = RefReader(stream, close, tc)
             if close is None:
                 if case.get("split"):
@@ -367,6 +371,10 @@ def cases(tier: str) -> List[Dict[str, Any]]:
                     if init:
                         d["init"] = init
                     out.append(d)
+                    if (init is None) != tc:
+                        # ... after the client has SENT with the rarely used options (a send timeout, a destination): what a send
+                        # call leaves on the connection must not change how the next frames are read
+                        out.append(dict(d, sent="options"))
     # several frames with payloads, all kept by the caller, read while subscribed to everything / to single types
     for tc in (False, True):
         for seq in itertools.product(("good", "unsub", "larger", "signal"), repeat=3):
